@@ -133,13 +133,13 @@ Lemma thread_stack_restored_step_l : forall defs fuel op w, quiescent w ->
 Proof. intros. apply top_ok. assumption. Qed.
 
 (* ---- conditions: the interpreter's signal / unhang / value= are the cell machine plus the queue *)
-Lemma do_signal_spec : forall c w x t, nth_error (cells w) c = Some x -> cur_secs w = Some t ->
+Lemma do_signal_spec : forall c w x t, nth_error (cells w) c = Some x -> cell_err x = None -> cur_secs w = Some t ->
   (cell_test x = true ->
      fst (do_signal c w) = set_queue (enqueue_all t (waiting x) (queue w)) (set_cell c (mkCell (ckind_of x) []) w)
      \/ (waiting x = [] /\ fst (do_signal c w) = set_cell c (mkCell (ckind_of x) []) w)) /\
   (cell_test x = false -> fst (do_signal c w) = set_cell c x w /\ queue (fst (do_signal c w)) = queue w).
 Proof.
-  intros c w x t E C. unfold do_signal. rewrite E. unfold cell_signal. split; intro T; rewrite T.
+  intros c w x t E NE C. unfold do_signal. rewrite E, NE. unfold cell_signal. split; intro T; rewrite T.
   - unfold sched_all. destruct (waiting x) eqn:Wx.
     + right. split; reflexivity.
     + left. change (cur_secs (set_cell c (mkCell (ckind_of x) []) w)) with (cur_secs w). rewrite C. reflexivity.
@@ -193,13 +193,13 @@ Proof.
 Qed.
 
 Lemma wait_registers_thread_player_l : forall c w x t p,
-  nth_error (cells w) c = Some x -> cur w = Some (R t) -> cell_test x = false ->
+  nth_error (cells w) c = Some x -> cur w = Some (R t) -> cell_err x = None -> cell_test x = false ->
   tplayer (S (length (rts w))) w t = Some p ->
   fst (fst (do_wait c w)) = set_cell c (mkCell (ckind_of x) (waiting x ++ [p])) w /\
   snd (fst (do_wait c w)) = Some VHang /\
   anc w p t /\ (forall y q, nth_error (rts w) p = Some y -> parent y <> Some (R q)).
 Proof.
-  intros c w x t p E C T TP. unfold do_wait. rewrite E, C, T, TP. unfold cell_wait. rewrite T.
+  intros c w x t p E C NE T TP. unfold do_wait. rewrite E, C, NE, T, TP. unfold cell_wait. rewrite T.
   split; [reflexivity | split; [reflexivity | apply tplayer_spec with (n := S (length (rts w))); exact TP]].
 Qed.
 
